@@ -33,7 +33,7 @@ func verifC16ToStringInjective() {
 
 func verifC16MapClearU64() {
 	verifMapOrder(true)
-	n := verifChoose(4)
+	n := verifChoose(5 + 2*verifTier())
 	m := make(map[uint64]uint64)
 	for i := 0; i < n; i++ {
 		m[verifNondetU64("k")] = verifNondetU64("v")
@@ -57,7 +57,7 @@ type verifNamedMap map[string][]byte
 
 func verifC16MapClearStr() {
 	verifMapOrder(true)
-	n := verifChoose(4)
+	n := verifChoose(5 + verifTier())
 	m := make(verifNamedMap)
 	for i := 0; i < n; i++ {
 		m[verifNondetString("k", 1+i%2)] = verifNondetBytes("v", 2)
